@@ -106,6 +106,21 @@ func checkC14(w *World, r *Report) {
 			}
 		}
 	}
+	// metadata and positions must not matter
+	for _, b := range eq.Blocks {
+		for _, in := range b.Instrs {
+			var fname string
+			switch x := in.(type) {
+			case *ssa.Field:
+				fname = fieldName(x.X.Type(), x.Field)
+			case *ssa.FieldAddr:
+				fname = fieldName(x.X.Type(), x.Field)
+			}
+			if fname == "Meta" || fname == "Cursor" {
+				r.bad("C14.kinds", eq, "read of "+fname, in.Pos(), "equality looks at metadata / source positions: structurally equal values can compare unequal")
+			}
+		}
+	}
 	// presence
 	np := 0
 	for _, l := range naturalLoops(eq) {
@@ -191,6 +206,46 @@ func checkC14(w *World, r *Report) {
 			}
 		}
 		r.check(okLen, "C14.symmetric-shape", eq, "size test in case "+k, eq.Pos(), "sizes of both operands compared, unequal sizes are unequal", "no size comparison: equality degenerates to 'is a prefix / subset of' and is not symmetric")
+		// no `return true` before the size test
+		early := false
+		for b := range reg {
+			ret, ok := b.Instrs[len(b.Instrs)-1].(*ssa.Return)
+			if !ok {
+				continue
+			}
+			c, ok := ret.Results[0].(*ssa.Const)
+			if ok && c.Value != nil && !constant.BoolVal(c.Value) {
+				continue
+			}
+			// a result that can be true: must be dominated by a size-equality edge
+			dominated := false
+			for d := range reg {
+				iff := blockIf(d)
+				if iff == nil {
+					continue
+				}
+				bo, ok := iff.Cond.(*ssa.BinOp)
+				if !ok || (bo.Op != token.NEQ && bo.Op != token.EQL) {
+					continue
+				}
+				tx, _, okx := e.linOf(bo.X)
+				ty, _, oky := e.linOf(bo.Y)
+				if !okx || !oky || tx.Kind != 1 || ty.Kind != 1 {
+					continue
+				}
+				eqEdge := 1
+				if bo.Op == token.EQL {
+					eqEdge = 0
+				}
+				if edgeDominates(d, eqEdge, b) {
+					dominated = true
+				}
+			}
+			if !dominated {
+				early = true
+			}
+		}
+		r.check(!early, "C14.symmetric-shape", eq, "equal only after the size test in case "+k, eq.Pos(), "every possibly-true result is reached through the equal-sizes edge", "a result that can be true is returned before the sizes were compared")
 		if k == "types.List" || k == "types.Vector" {
 			rec := false
 			for b := range reg {
@@ -878,6 +933,51 @@ func checkC17(w *World, r *Report) {
 			r.check(okPat, "C17.module", rs, "module header pattern on load-file's header line", rs.Pos(), "captures the whole file name up to the line end", "the pattern does not recover the module name load-file writes: "+detail)
 		}
 	}
+	// the text is tokenized as given (positions are counted from its first byte)
+	if rs := w.Fn("reader", "Read_str"); rs != nil {
+		if tk := w.Fn("reader", "tokenize"); tk != nil {
+			for _, c := range staticCallsTo(rs, tk) {
+				r.check(c.Call.Args[0] == ssa.Value(rs.Params[0]), "C17.provenance", rs, "text handed to the tokenizer", c.Pos(), "the text given to Read_str, unchanged", "the text is altered before it is tokenized: every position is counted in the altered text, not in the caller's")
+			}
+		}
+	}
+	// Copy is a deep copy: no pointer field of the result aliases the receiver's
+	if cp := w.Fn("types", "(*Position).Copy"); cp != nil {
+		okDeep := true
+		nRet := 0
+		for _, rt := range (&evalModel{}).returns(cp) {
+			v := rt[1].(ssa.Value)
+			if isNilConst(v) {
+				continue
+			}
+			nRet++
+			al, ok := v.(*ssa.Alloc)
+			if !ok {
+				okDeep = false
+				continue
+			}
+			for _, ref := range *al.Referrers() {
+				switch u := ref.(type) {
+				case *ssa.Store:
+					if u.Addr == ssa.Value(al) {
+						okDeep = false // whole-struct copy: pointer fields alias
+					}
+				case *ssa.FieldAddr:
+					if _, isPtr := structField(u.X.Type(), u.Field).Type().Underlying().(*types.Pointer); !isPtr {
+						continue
+					}
+					for _, r2 := range *u.Referrers() {
+						if st, ok := r2.(*ssa.Store); ok && st.Addr == ssa.Value(u) {
+							if _, fresh := st.Val.(*ssa.Alloc); !fresh && !isNilConst(st.Val) {
+								okDeep = false
+							}
+						}
+					}
+				}
+			}
+		}
+		r.check(okDeep && nRet >= 1, "C17.module", cp, "Position.Copy", cp.Pos(), "pointer fields of the copy are fresh allocations", "the copy shares the module-name pointer with the original: a caller reusing its name variable renames the module of positions handed out earlier")
+	}
 	// span
 	rl := w.Fn("reader", "read_list")
 	if rl == nil {
@@ -1208,6 +1308,38 @@ func checkC19(w *World, r *Report) {
 		r.undecided("C19.repl", nil, "REPL", token.NoPos, "function no longer resolves")
 	}
 	r.add("C19.nil-cursor", nil, "nil guards of optional positions", token.NoPos, "info", "decided by the may-panic audits of C04 and C05 (optional pointer fields are may-nil there)")
+	r.rule("C19.print-reread", "the re-read-from-printed-form route: the printer's escape table and the reader's un-escape table are inverse (shared with C06.escape)")
+	escapeAgreement(w, r, e, "C19.print-reread")
+	r.rule("C19.whitespace", "the tokenizer leaves the scanner's white-space set alone, or sets one that contains space, tab, LF and CR (text with CRLF line endings means the same)")
+	if tk := w.Fn("reader", "tokenize"); tk != nil {
+		found := false
+		for _, b := range tk.Blocks {
+			for _, in := range b.Instrs {
+				st, ok := in.(*ssa.Store)
+				if !ok {
+					continue
+				}
+				fa, ok := st.Addr.(*ssa.FieldAddr)
+				if !ok || fieldName(fa.X.Type(), fa.Field) != "Whitespace" {
+					continue
+				}
+				found = true
+				okMask := false
+				if c, ok := st.Val.(*ssa.Const); ok && c.Value != nil {
+					if v, ok := constant.Uint64Val(c.Value); ok {
+						need := uint64(1)<<' ' | 1<<'\t' | 1<<'\n' | 1<<'\r'
+						okMask = v&need == need
+					}
+				}
+				r.check(okMask, "C19.whitespace", tk, "scanner white-space set", st.Pos(), "contains space, tab, LF, CR", "the white-space set given to the scanner lacks one of space, tab, LF, CR: the same program with other line endings reads differently")
+			}
+		}
+		if !found {
+			r.ok("C19.whitespace", tk, "scanner white-space set", tk.Pos(), "the scanner's default is used")
+		}
+	} else {
+		r.undecided("C19.whitespace", nil, "tokenize", token.NoPos, "function no longer resolves")
+	}
 	r.Assumptions = append(r.Assumptions, "equality of results across delivery routes and CRLF/comment handling inside the scanner are not decided")
 }
 
@@ -1481,6 +1613,60 @@ func checkC20(w *World, r *Report) {
 			okDom = up && lo
 		}
 		r.check(okDom, "C20.checked-first", fn, "count check before building the arguments", fn.Pos(), "the argument vector is built only when min <= count <= max", "the argument vector is built (and the function invoked) without both count bounds having been checked")
+	}
+	// the two builders box argument k into slot k (+1 when the context occupies slot 0), in both branches
+	for _, pr := range []struct {
+		fn  *ssa.Function
+		off int64
+	}{{args, 0}, {argsCtx, 1}} {
+		loops := naturalLoops(pr.fn)
+		nst, okOff := 0, true
+		for _, l := range loops {
+			var counter ssa.Value
+			for _, in := range l.header.Instrs {
+				if phi, ok := in.(*ssa.Phi); ok && isIntType(phi.Type()) {
+					counter = phi
+				}
+			}
+			for b := range loopBlocks(l) {
+				for _, in := range b.Instrs {
+					st, ok := in.(*ssa.Store)
+					if !ok {
+						continue
+					}
+					ia, ok := st.Addr.(*ssa.IndexAddr)
+					if !ok {
+						continue
+					}
+					nst++
+					t, off, ok := e.linOf(ia.Index)
+					// the range loop's element index is counter+1 in SSA (rangeindex starts at -1)
+					ct, coff, _ := e.linOf(counter)
+					_ = ct
+					if !ok || t.Kind != 2 {
+						okOff = false
+						continue
+					}
+					// index of the element being boxed: the value used to load args[k]
+					_ = coff
+					rel := off
+					// find the load of the source element in the loop: args[idx]
+					for bb := range loopBlocks(l) {
+						for _, in2 := range bb.Instrs {
+							if ia2, ok := in2.(*ssa.IndexAddr); ok && ia2.X == ssa.Value(pr.fn.Params[len(pr.fn.Params)-1]) {
+								if t2, off2, ok := e.linOf(ia2.Index); ok && t2.String() == t.String() {
+									rel = off - off2
+								}
+							}
+						}
+					}
+					if rel != pr.off {
+						okOff = false
+					}
+				}
+			}
+		}
+		r.check(nst >= 1 && okOff, "C20.siblings", pr.fn, "slot of each boxed argument", pr.fn.Pos(), fmt.Sprintf("argument k goes to slot k+%d in every branch", pr.off), "an argument is boxed into the wrong slot of the reflective call (the context or a neighbour is overwritten)")
 	}
 	// results
 	okNN := true
